@@ -69,6 +69,8 @@ class Sched:
         self.nsteps = 0
         self.gcount = 0
         self.errors = []
+        self.degraded = []          # observables the harness could not obtain (never a violation)
+        self.gens = []
 
     def me(self):
         if self.free:
@@ -204,6 +206,11 @@ class FakeOS:
     def __getattr__(self, name):
         return getattr(real_os, name)
 
+    def pipe(self):
+        pr = real_os.pipe()
+        PIPES.append(pr)
+        return pr
+
     def write(self, fd, data):
         s = CUR
         if s is not None and s.park('pipewrite'):
@@ -313,6 +320,7 @@ def _ev_id(s, e):
         if g is None:
             g = e.c03_g = s.gcount
             s.gcount += 1
+            s.gens.append(e)
         return ['G', g]
     if hasattr(e, 'c03'):
         return ['F', e.c03[0], e.c03[1]]
@@ -463,20 +471,39 @@ class TDeque(collections.deque):
     def append(self, item):
         s, c = _ctl()
         if c is not None:
-            e = item[2][0]
-            i = _ev_id(s, e)
-            if i[0] == 'G':
-                tl = e.__dict__.get('_c03__time_left', _NOVAL)
-                if tl is _NOVAL:
-                    tl = cevents.generate_events.__dict__['_time_left']._get(e)
-                lab = ['AppG', _sign(tl)]
-            else:
-                lab = ['AppF'] if i[0] == 'F' else ['AppO']
+            try:
+                e = item[-1][0]
+                i = _ev_id(s, e)
+                if i[0] == 'G':
+                    tl = e.__dict__.get('_c03__time_left', _NOVAL)
+                    if tl is _NOVAL:
+                        tl = cevents.generate_events.__dict__['_time_left']._get(e)
+                    lab = ['AppG', _sign(tl)]
+                else:
+                    lab = ['AppF'] if i[0] == 'F' else ['AppO']
+            except Exception as ex:      # entry of an unexpected shape: observation degraded, never an error
+                lab = ['AppO']
+                s.degraded.append('queue entry not understood: %s' % type(ex).__name__)
             if c.in_qapp and COUNTER[0]:
                 s.emit(lab)             # same step as the read of the counter that numbered the entry
             else:
                 _visible(lab)
         collections.deque.append(self, item)
+
+    # other ways of taking entries out of / looking into the shared deque: pre-emption points without a label
+    def __iter__(self):
+        # iterating (list.extend(deque), list(deque)) is one atomic C-level operation in reality: pre-emption point
+        # before it, then a snapshot, so that parks inside nested hooks (length hint) cannot tear it
+        _visible(None)
+        return iter(list(collections.deque.__iter__(self)))
+
+    def clear(self):
+        _visible(None)
+        return collections.deque.clear(self)
+
+    def pop(self, *a):
+        _visible(None)
+        return collections.deque.pop(self, *a)
 
     def popleft(self):
         _visible(['Move'])
@@ -564,8 +591,47 @@ def _wrap_dispatch(orig):
 
 
 def _deque_attr(q):
-    names = list(getattr(type(q), '__slots__', ())) + list(getattr(q, '__dict__', {}))
-    return [n for n in names if isinstance(getattr(q, n, None), collections.deque)]
+    return [n for n in _attr_names(q) if isinstance(getattr(q, n, None), collections.deque)]
+
+
+def find_queue(m):
+    """the event queue object of a manager: the attribute value that can append and dispatchEvents (probe by
+    behaviour; the attribute name `_queue`, which the property's anchors mention, is only the fallback)"""
+    cands = [v for v in list(vars(m).values())
+             if callable(getattr(type(v), 'dispatchEvents', None)) and callable(getattr(type(v), 'append', None))]
+    if len(cands) == 1:
+        return cands[0]
+    return getattr(m, '_queue', None)
+
+
+def _attr_names(o):
+    names = []
+    for k in type(o).__mro__:
+        sl = k.__dict__.get('__slots__', ())
+        names += [sl] if isinstance(sl, str) else list(sl)
+    return names + list(getattr(o, '__dict__', {}))
+
+
+def _is_entry(x):
+    return (isinstance(x, tuple) and len(x) >= 2 and isinstance(x[-1], tuple) and len(x[-1]) == 2
+            and isinstance(x[-1][0], Event))
+
+
+def queued_entries(q):
+    """every queue entry (…, (event, channels)) held by any list / deque attribute of the queue object: heap-like
+    lists first (sorted by their leading key), then deques in order"""
+    lists, deques = [], []
+    for n in _attr_names(q):
+        v = getattr(q, n, None)
+        if isinstance(v, collections.deque):
+            deques += [x for x in collections.deque.__iter__(v) if _is_entry(x)]
+        elif isinstance(v, list):
+            lists += [x for x in v if _is_entry(x)]
+    lists.sort(key=lambda x: tuple(x[:-1]))
+    return lists + deques
+
+
+PIPES = []              # control pipes created (through the os double) for the pollers of the running case
 
 
 def install():
@@ -604,7 +670,10 @@ def install():
     if not isinstance(G.__dict__.get('time_left'), property):
         MISSING.append('generate_events.time_left')
     # the queue class of the root manager
-    q = M()._queue
+    q = find_queue(M())
+    if q is None:
+        MISSING.append('no event queue object found on Manager()')
+        return
     Q = type(q)
     for name, wrap in (('append', _wrap_qappend), ('__len__', _wrap_qlen), ('dispatchEvents', _wrap_dispatch)):
         if not callable(Q.__dict__.get(name)):
@@ -614,14 +683,14 @@ def install():
     if len(_deque_attr(q)) != 1:
         MISSING.append('%s: exactly one deque attribute expected, found %r' % (Q.__name__, _deque_attr(q)))
     else:
-        # the counter that numbers the entries: the int attribute equal to the number stored in the second entry
+        # the counter that numbers the entries: the int attribute that advances by one per append
         try:
             q2 = Q()
+            names = [n for n in _attr_names(q2) if type(getattr(q2, n, None)) is int]
             q2.append(Event(), ('*',), 0)
+            v1 = {n: getattr(q2, n) for n in names}
             q2.append(Event(), ('*',), 0)
-            key = getattr(q2, _deque_attr(q2)[0])[-1][1]
-            names = list(getattr(Q, '__slots__', ())) + list(getattr(q2, '__dict__', {}))
-            cands = [n for n in names if type(getattr(q2, n, None)) is int and getattr(q2, n) == key]
+            cands = [n for n in names if getattr(q2, n) - v1[n] == 1]
             if len(cands) == 1:
                 inner = Q.__dict__.get(cands[0])
                 setattr(Q, cands[0], Tracked(cands[0], _ctr_read, _ctr_write,
@@ -657,10 +726,14 @@ def install():
 
 def instrument_manager(m):
     """replace the deque of this manager's queue object by the reporting deque"""
-    q = m._queue
-    names = _deque_attr(q)
+    q = find_queue(m)
+    names = _deque_attr(q) if q is not None else []
     if len(names) == 1:
         setattr(q, names[0], TDeque(getattr(q, names[0])))
+    if not any(isinstance(v, SLock) for v in vars(m).values()):
+        if 'Manager(): no attribute holds the RLock double' not in MISSING:
+            MISSING.append('Manager(): no attribute holds the RLock double')
+    return q
 
 
 # ------------------------------------------------------------------------------------------- one run
@@ -703,8 +776,9 @@ def run_case(case):
     s.flags = []
     s.ocount = 0
     s.abort = False
+    del PIPES[:]
     m = cmanager.Manager()
-    instrument_manager(m)
+    mq = instrument_manager(m)
     Sink().register(m)
     if case.get('timer'):
         Ticker().register(m)
@@ -714,7 +788,8 @@ def run_case(case):
     for _ in range(6):
         m.flush()
     # a fresh queue object state the model starts from: nothing queued
-    assert len(m._queue) == 0
+    if mq is not None and len(mq) != 0:
+        s.degraded.append('queue not empty before the run')
 
     def loop_body():
         c = s.ctl[threading.get_ident()]
@@ -773,15 +848,20 @@ def run_case(case):
             m.stop()
         except BaseException as e:
             teardown.append('stop() raised %s' % type(e).__name__)
-        m._running = False
-        h = m._currently_handling
-        if isinstance(h, cevents.generate_events):
-            h._time_left = 0
+            try:
+                setattr(m, '_running', False)
+            except Exception:
+                pass
+        for g in list(s.gens):          # every generate_events seen: nothing may keep waiting
+            try:
+                g.reduce_time_left(0)
+            except Exception:
+                pass
         for f in s.flags:
             f.set()
-        if poller is not None:
+        for r, w in PIPES:
             try:
-                real_os.write(poller._ctrl_send, b'\0')
+                real_os.write(w, b'\0')
             except OSError:
                 pass
     except Exception as e:      # pragma: no cover
@@ -791,16 +871,17 @@ def run_case(case):
     if any(th.is_alive() for th in threads):
         teardown.append('threads did not terminate')
     CUR = None
-    if poller is not None:
-        for fd in (poller._ctrl_recv, poller._ctrl_send):
+    for pair in PIPES:
+        for fd in pair:
             try:
                 real_os.close(fd)
             except OSError:
                 pass
+    del PIPES[:]
     obs = {'verdict': verdict, 'log': s.log, 'trace': s.trace, 'steps': s.nsteps,
            'errors': list(s.errors), 'teardown': teardown, 'tsteps': s.tsteps,
            'returned': [s.byidx[t + 1].fire_returned for t in range(len(nev))],
-           'missing_anchors': list(MISSING)}
+           'missing_anchors': list(MISSING), 'degraded': list(s.degraded)}
     return obs
 
 
@@ -810,9 +891,12 @@ def schedule(s, m, sch, case):
     loop = s.byidx[0]
     v['blocked'] = bool(not loop.done and loop.kind in ('wait', 'select') and loop.enabled is not None
                         and not loop.enabled())
-    q = m._queue
-    ents = sorted(q._priority_queue, key=lambda x: (x[0], x[1])) + list(q._queue)
-    v['pending'] = [list(e[2][0].c03) for e in ents if hasattr(e[2][0], 'c03')]
+    try:
+        ents = queued_entries(find_queue(m))
+        v['pending'] = [list(e[-1][0].c03) for e in ents if hasattr(e[-1][0], 'c03')]
+    except Exception as e:
+        v['pending'] = None              # not observable: this component of the comparison is dropped
+        s.degraded.append('queue content not observable: %s' % type(e).__name__)
     v['gcount'] = s.gcount
     return v
 
@@ -1058,7 +1142,25 @@ class C03(Prop):
 
     # ---- implementation
     def impl(self, case):
-        obs = run_case(case)
+        global CUR
+        try:
+            obs = run_case(case)
+        except Exception as e:
+            # run_case executes in the checking thread: the implementation runs in the other threads and its
+            # exceptions are collected in obs['errors'].  Whatever is raised HERE is harness code.
+            CUR = None
+            import traceback
+            obs = {'harness_error': '%s: %s' % (type(e).__name__, e), 'tb': traceback.format_exc()[-800:]}
+            self._obs[common.canon(case)] = obs
+            self.stats['harness_errors'] = self.stats.get('harness_errors', 0) + 1
+            self.stats.setdefault('harness_error_kinds', {}).setdefault(obs['harness_error'][:80], 0)
+            self.stats['harness_error_kinds'][obs['harness_error'][:80]] += 1
+            return obs
+        if obs.get('degraded'):
+            self.stats['degraded_runs'] = self.stats.get('degraded_runs', 0) + 1
+            d = self.stats.setdefault('degraded', {})
+            for x in set(obs['degraded']):
+                d[x] = d.get(x, 0) + 1
         self._obs[common.canon(case)] = obs
         st = self.stats
         st['runs'] = st.get('runs', 0) + 1
@@ -1085,25 +1187,32 @@ class C03(Prop):
     # ---- model
     def model_term(self, case):
         obs = self._obs.get(common.canon(case))
+        if isinstance(obs, dict) and 'harness_error' in obs:
+            # skipped, unless most runs are like that: then nothing ties the model to the code (fail closed)
+            bad = self.stats.get('harness_errors', 0) * 2 > max(1, self.stats.get('runs', 0) + self.stats.get('harness_errors', 0))
+            return 'Tl [Tn (%d)]' % (-9 if bad else -8)
         if obs is None or not isinstance(obs, dict) or 'trace' not in obs:
             return None
         return self.case_term(case, obs)
 
     def case_term(self, case, obs):
         tr = '; '.join('(%d, %s)' % (t, coq_lbl(l)) for t, l in obs['trace'])
-        return 'obs_trace %s [%s]%%nat' % ('Fallback' if case['mode'] == 'fallback' else 'Poller', tr)
+        fn = 'obs_trace' if obs['verdict'].get('pending') is not None else 'obs_trace_np'
+        return fn + ' %s [%s]%%nat' % ('Fallback' if case['mode'] == 'fallback' else 'Poller', tr)
 
     def obs_for_model(self, case, obs):
         if isinstance(obs, dict) and '__crash__' in obs:
             return [-999]
+        if 'harness_error' in obs:
+            return [-8]
         if obs['missing_anchors']:
             return [-5]
         v = obs['verdict']
-        return [-1, [list(x) for x in obs['log']], v['pending'], v['gcount'], bool(v['blocked'])]
+        return [-1, [list(x) for x in obs['log']], v['pending'] or [], v['gcount'], bool(v['blocked'])]
 
     # ---- oracle: the property read on the real run
     def oracle(self, case, obs):
-        if isinstance(obs, dict) and '__crash__' in obs:
+        if isinstance(obs, dict) and ('__crash__' in obs or 'harness_error' in obs):
             return None
         v = obs['verdict']
         if obs['errors']:
